@@ -91,10 +91,12 @@ def str_parse(ctx, args, st):
     raise Unsupported(ty)
 
 
-@model(r'^<(\w+) as TryInto<(\w+)>>::try_into$|^<(\w+) as TryFrom<(\w+)>>::try_from$')
+@model(r'^<(\w+) as TryInto<(\w+)>>::try_into$|^<(\w+) as TryFrom<(\w+)>>::try_from$|^<impl TryInto<(\w+)> as TryInto<(\w+)>>::try_into$')
 def int_try_into(ctx, args, st):
     m = re.match(r'^<(\w+) as TryInto<(\w+)>>::try_into$', ctx.callee)
-    if m: src, dst = m.group(1), m.group(2)
+    mg = re.match(r'^<impl TryInto<(\w+)> as TryInto<(\w+)>>::try_into$', ctx.callee)
+    if mg and isinstance(args[0], Int): src, dst = args[0].ty, mg.group(2)
+    elif m: src, dst = m.group(1), m.group(2)
     else:
         m = re.match(r'^<(\w+) as TryFrom<(\w+)>>::try_from$', ctx.callee); dst, src = m.group(1), m.group(2)
     a = args[0]
